@@ -18,6 +18,9 @@ mod blevel;
 #[path = "/verif/harness/sequencer/proposals.rs"]
 mod proposals;
 
+#[path = "/verif/harness/sequencer/rollupdata.rs"]
+mod rollupdata;
+
 use std::{
     collections::{
         BTreeMap,
